@@ -18,6 +18,7 @@ import (
 // Engine holds the loaded program, the specifications and global registries.
 type Engine struct {
 	prog      *ssa.Program
+	entAlloc  []string
 	spkgs     map[string]*ssa.Package
 	tpkgs     map[string]*packages.Package
 	fset      *token.FileSet
@@ -1211,10 +1212,13 @@ func (e *Engine) modSetBlocks(st *State, fn *ssa.Function, blocks map[*ssa.Basic
 				if blocks != nil && allocatedIn(x.Addr, blocks) {
 					continue // a cell of an object allocated inside the loop: not visible after the iteration
 				}
+				if isVarargsCell(x.Addr) {
+					continue // the argument array of a variadic call: fresh, only the callee sees it
+				}
 				if k, ok := storeTarget(x.Addr); ok {
 					add(k)
 				} else {
-					return nil, true
+					return e.modAll(fn, in)
 				}
 			case *ssa.MapUpdate:
 				mt := x.Map.Type().Underlying().(*types.Map)
@@ -1265,7 +1269,7 @@ func (e *Engine) modSetBlocks(st *State, fn *ssa.Function, blocks map[*ssa.Basic
 							continue
 						}
 					}
-					return nil, true
+					return e.modAll(fn, in)
 				}
 				key := fnKey(callee)
 				if ct, ok := e.specs.Contracts[key]; ok && !ct.Inline {
@@ -1290,27 +1294,46 @@ func (e *Engine) modSetBlocks(st *State, fn *ssa.Function, blocks map[*ssa.Basic
 						}
 					}
 					if bad {
-						return nil, true
+						return e.modAll(fn, in)
 					}
 					continue
 				}
-				if e.isSkipped(callee) || pureExternal(callee.String()) {
+				if e.isSkipped(callee) || pureExternal(callee.String()) || genericPure(callee) {
 					continue
 				}
-				if e.inModule(callee) && callee.Blocks != nil && depth < 4 && !seen[callee] {
+				if e.inModule(callee) && callee.Blocks != nil && seen[callee] {
+					continue // already accounted for
+				}
+				if e.inModule(callee) && callee.Blocks != nil && depth < 4 {
 					seen[callee] = true
 					p2, a2 := e.modSetBlocks(st, callee, nil, depth+1, seen)
 					if a2 {
-						return nil, true
+						return e.modAll(fn, in)
 					}
 					pats = append(pats, p2...)
 					continue
 				}
-				return nil, true
+				return e.modAll(fn, in)
 			}
 		}
 	}
 	return pats, false
+}
+
+// genericPure: callees handled by genericIntrinsic, none of which writes memory.
+func genericPure(callee *ssa.Function) bool {
+	n := callee.Name()
+	if strings.HasPrefix(n, "Get") && callee.Signature.Recv() != nil && len(callee.Params) == 1 && isProtoPkg(callee) {
+		return true
+	}
+	return strings.HasPrefix(n, "ParseString") && strings.Contains(callee.String(), "participle/v2.Parser")
+}
+
+func (e *Engine) modAll(fn *ssa.Function, in ssa.Instruction) ([]string, bool) {
+	if os.Getenv("GOVC_DEBUG") != "" {
+		fmt.Fprintf(os.Stderr, "MODSET-ALL in %s because of: %s\n", fn.Name(), in.String())
+	}
+	return nil, true
 }
 
 // entModset: what a call into generated ent code (or ent's sql builder) may modify: builder methods touch
@@ -1346,13 +1369,84 @@ func (e *Engine) entModset(callee *ssa.Function) ([]string, bool) {
 			}
 		}
 	}
+	kind := ""
+	if callee.Signature.Recv() != nil {
+		if m := entRecvRe.FindStringSubmatch(typeKey(callee.Signature.Recv().Type())); m != nil {
+			kind = m[2]
+		}
+	}
 	switch strings.TrimSuffix(callee.Name(), "X") {
-	case "All", "Only", "First", "IDs", "Count", "Exist", "Scan", "Save", "Exec", "Get", "OnlyID", "FirstID":
+	case "All", "Only", "First", "Get":
+		if kind == "Query" || kind == "Client" {
+			// a query changes no table; it allocates entities and the boxed / sliced values of their columns
+			return append([]string{"S:dbfailed"}, e.entAllocPats()...), true
+		}
 		return []string{"T:*", "S:dbfailed", "CB:*", "F:ent.*", "B:*", "E:*"}, true
+	case "IDs", "OnlyID", "FirstID":
+		if kind == "Query" {
+			return []string{"S:dbfailed", "E:uuid.UUID:*", "E:uuid.UUID:"}, true
+		}
+		return []string{"T:*", "S:dbfailed", "CB:*", "F:ent.*", "B:*", "E:*"}, true
+	case "Count", "Exist":
+		if kind == "Query" {
+			return []string{"S:dbfailed"}, true
+		}
+		return []string{"T:*", "S:dbfailed", "CB:*", "F:ent.*", "B:*", "E:*"}, true
+	case "Scan":
+		return []string{"S:dbfailed", "F:ent.*", "B:*", "E:*"}, true
+	case "Save", "Exec":
+		return append([]string{"T:*", "S:dbfailed", "CB:*"}, e.entAllocPats()...), true
 	case "OnCommit", "OnRollback":
 		return []string{"S:wake_on_commit"}, true
 	}
 	return nil, true
+}
+
+// entAllocPats: the heap arrays in which entities returned by ent live (entity structs, slices of entity
+// pointers, boxed nillable columns, JSON slices and maps).
+func (e *Engine) entAllocPats() []string {
+	if e.entAlloc != nil {
+		return e.entAlloc
+	}
+	seen := map[string]bool{}
+	out := []string{"F:ent.*", "E:*ent.*"}
+	add := func(p string) {
+		if !seen[p] {
+			seen[p] = true
+			out = append(out, p)
+		}
+	}
+	for _, t := range e.ent.Tables {
+		for _, c := range t.Cols {
+			vt := c.GoType
+			if pt, ok := vt.Underlying().(*types.Pointer); ok {
+				vt = pt.Elem()
+				add("B:" + shortenType(typeKey(vt)) + ":*")
+			}
+			switch u := vt.Underlying().(type) {
+			case *types.Slice:
+				add("E:" + shortenType(typeKey(u.Elem())) + ":*")
+				add("E:" + shortenType(typeKey(u.Elem())) + ":")
+			case *types.Map:
+				base := shortenType(typeKey(u.Key())) + ":" + shortenType(typeKey(u.Elem()))
+				add("MH:" + base)
+				add("MV:" + base + ":*")
+				add("MV:" + base + ":")
+			}
+		}
+	}
+	sort.Strings(out[2:])
+	e.entAlloc = out
+	return out
+}
+
+func isVarargsCell(addr ssa.Value) bool {
+	if ia, ok := addr.(*ssa.IndexAddr); ok {
+		if al, ok := ia.X.(*ssa.Alloc); ok && al.Comment == "varargs" {
+			return true
+		}
+	}
+	return false
 }
 
 // allocatedIn: the address is a cell of an object allocated (by an Alloc instruction) in one of the blocks.
